@@ -169,7 +169,7 @@ def gen_history(seed, long=False):
         # state directory, the next server starts and the sessions that were externalised continue)
         ops.insert(rng.randint(1, len(ops)), {"inst": -1, "op": "save_state"})
     ints = {"runspecs": {"starttime": 1, "stoptime": 30, "dt": 1}} if (int_specs == "scenario" and not long) else {}
-    if rng.random() < 0.3 and not long:
+    if rng.random() < 0.5 and not long:
         # POST /load-state at a moment when the state directory is up to date (every instance's last request was a stepping
         # one): reading everything back changes nothing - also on a server that was itself started from that directory
         ok_pos = []
@@ -181,7 +181,13 @@ def gen_history(seed, long=False):
             if lastop and all(v in ("step", "steps", "stream", "stream_cut") for v in lastop.values()) and not ops[pos - 1].get("pair"):
                 ok_pos.append(pos)
         if ok_pos:
-            ops.insert(rng.choice(ok_pos), {"inst": -1, "op": "load_state"})
+            # (preferably with stepping requests still to come, and sometimes twice)
+            inner = [p_ for p_ in ok_pos if any(o["op"] in ("step", "steps") for o in ops[p_:])] or ok_pos
+            pos1 = rng.choice(inner)
+            ops.insert(pos1, {"inst": -1, "op": "load_state"})
+            later = [p_ + 1 for p_ in inner if p_ > pos1]
+            if later and rng.random() < 0.4:
+                ops.insert(rng.choice(later), {"inst": -1, "op": "load_state"})
     return {"property": PROPERTY,
             "config": {"adapter": adapter, "list_order": rng.choice(["insertion", "sorted", "reversed"]),
                        "model": {"template": template, "start": 1.0, "stop": 30.0 if not long else 2000.0, "dt": 1.0,
